@@ -281,6 +281,13 @@ func Props() []string {
 // after the cool-down (faults stopped, peers cooperative, clock advanced): with nothing
 // else runnable that is a deadlock (or a leaked lock). Returns true if it failed the run.
 func (r *Run) CheckDeadlock() bool {
+	if len(r.Sim.LockWaiters()) > 0 {
+		// not quiescent yet: let everything settle first (a waiter is only a deadlock if
+		// nothing else can run any more)
+		if r.Sim.RunUntil(5*time.Second, nil) == "steps" {
+			return false
+		}
+	}
 	ws := r.Sim.LockWaiters()
 	if len(ws) == 0 {
 		return false
